@@ -5,6 +5,7 @@ sys.path.insert(0, os.path.dirname(os.path.dirname(os.path.abspath(__file__))))
 from lsx import driver, models_zlib, engine as E
 
 VERIF = driver.VERIF
+OUT = os.environ.get('VERIF_OUT', VERIF)       # where evidence/ and replays/ go (scratch runs against a seeded change point this elsewhere)
 TIER = os.environ.get('VERIF_TIER', 'quick')
 SEED = int(os.environ.get('VERIF_SEED', '0') or 0)
 NPROC = int(os.environ.get('VERIF_JOBS', '0') or 0) or min(16, os.cpu_count() or 4)
@@ -149,7 +150,7 @@ class Check:
     def triage(s, r, i, b):
         """replay the counterexample natively; print VIOLATION only if it reproduces and is not a listed known finding"""
         rid = hashlib.md5(json.dumps([r.entry, r.params, b['kind'], [x['value'] for x in b['inputs']]]).encode()).hexdigest()[:10]
-        path = os.path.join(VERIF, 'replays', s.prop, '%s-%s.txt' % (r.entry, rid))
+        path = os.path.join(OUT, 'replays', s.prop, '%s-%s.txt' % (r.entry, rid))
         meta = {'property': s.prop, 'harness': r.job['harness'], 'entry': r.entry, 'params': r.params, 'kind': b['kind'], 'message': b['msg'],
                 'inputs': b['inputs'][:400], 'choices': b.get('choices')}
         driver.write_replay(path, b['inputs'], meta)
@@ -214,8 +215,8 @@ class Check:
         if s.level == 'model_checking' and cov['states'] < 1: cov['states'] = 1; cov['transitions'] = max(1, cov['transitions'])
         ev = {'property_id': s.prop, 'tier': TIER if TIER in ('quick', 'thorough') else 'quick', 'seed': SEED, 'level': s.level, 'coverage': cov,
               'assumptions': s.assumptions, 'wall_s': round(wall, 2), 'violations': len(s.violations)}
-        os.makedirs(os.path.join(VERIF, 'evidence'), exist_ok=True)
-        json.dump(ev, open(os.path.join(VERIF, 'evidence', s.prop + '.json'), 'w'), indent=1, default=str)
+        os.makedirs(os.path.join(OUT, 'evidence'), exist_ok=True)
+        json.dump(ev, open(os.path.join(OUT, 'evidence', s.prop + '.json'), 'w'), indent=1, default=str)
         for kid, desc in sorted(s.known_printed.items()):
             k = [x for x in s.known if x['id'] == kid][0]
             print('KNOWN-FINDING: property=%s %s: %s [%s]' % (s.prop, kid, k['what'], desc))
